@@ -1,5 +1,17 @@
 package main
 
+import (
+	"encoding/json"
+	"fmt"
+	"os"
+	"os/exec"
+	"path/filepath"
+	"regexp"
+	"strconv"
+	"strings"
+	"time"
+)
+
 // ---------- extras: stand-alone lemmas (solver string theory) and bounded stand-ins (K5) ----------
 type extraItem struct {
 	Name      string
@@ -21,10 +33,126 @@ type extraResult struct {
 	paper       string
 }
 
+// boundedSpec: a K5 stand-in — the REAL functions are driven exhaustively over a stated finite
+// domain by a Go test injected with `go test -overlay`. Always labelled bounded, never counted as proved.
+type boundedSpec struct {
+	prop      string
+	name      string
+	harness   string // file under /verif/harness
+	pkgDir    string // package directory relative to /repo
+	run       string
+	statement string
+	quick     string
+	thorough  string
+}
+
+var boundedSpecs = []boundedSpec{
+	{prop: "C17", name: "C17#bounded#registration-sequences", harness: "c17_bounded_test.go.txt", pkgDir: "", run: "TestGvcBoundedC17$",
+		statement: "for every sequence of Register / Before(x).Register / After(x).Register / Before(x).After(y).Register / Replace / Remove up to the bound over 4 built-in names, 2 new names and 1 unknown name: an error is returned, or every registered non-removed callback runs exactly once, on the requested side of the callback it names, built-ins keep their relative order, Replace keeps the position",
+		quick: "2", thorough: "3"},
+}
+
+var casesRe = regexp.MustCompile(`GVC-CASES (\d+)`)
+
+func runBounded(e *Engine, b boundedSpec, tier string) *extraItem {
+	t0 := time.Now()
+	bound := b.quick
+	if tier == "thorough" {
+		bound = b.thorough
+	}
+	it := &extraItem{Name: b.name, Statement: b.statement, Bounded: true, Bound: "sequence length <= " + bound, Backend: "go test (real code)"}
+	src, err := os.ReadFile(filepath.Join(e.verif, "harness", b.harness))
+	if err != nil {
+		it.Result = "harness missing: " + err.Error()
+		return it
+	}
+	tmp, _ := os.MkdirTemp("", "gvc-k5")
+	defer os.RemoveAll(tmp)
+	file := "zz_gvc_k5_test.go"
+	os.WriteFile(filepath.Join(tmp, file), src, 0o644)
+	ov, _ := json.Marshal(map[string]map[string]string{"Replace": {filepath.Join(e.repo, b.pkgDir, file): filepath.Join(tmp, file)}})
+	os.WriteFile(filepath.Join(tmp, "ov.json"), ov, 0o644)
+	cmd := exec.Command("go", "test", "-v", "-overlay", filepath.Join(tmp, "ov.json"), "-vet=off", "-count=1", "-timeout", "600s", "-run", b.run, ".")
+	cmd.Dir = filepath.Join(e.repo, b.pkgDir)
+	cmd.Env = append(os.Environ(), "GOFLAGS=-mod=mod", "GOPROXY=off", "GOSUMDB=off", "GOTOOLCHAIN=local", "TMPDIR="+tmp, "GVC_BOUND="+bound)
+	out, rerr := cmd.CombinedOutput()
+	text := string(out)
+	it.Ms = time.Since(t0).Milliseconds()
+	if m := casesRe.FindStringSubmatch(text); m != nil {
+		it.Cases, _ = strconv.Atoi(m[1])
+	}
+	var bad []string
+	for _, l := range strings.Split(text, "\n") {
+		if strings.Contains(l, "GVC-VIOLATION") || strings.HasPrefix(l, "fatal error") || strings.HasPrefix(l, "panic:") {
+			bad = append(bad, strings.TrimSpace(l))
+		}
+	}
+	switch {
+	case rerr == nil && it.Cases > 0 && len(bad) == 0:
+		it.OK, it.Result = true, fmt.Sprintf("all %d cases hold", it.Cases)
+	case len(bad) > 0:
+		it.Result = "violated"
+		if len(bad) > 8 {
+			bad = bad[:8]
+		}
+		it.Witness = strings.Join(bad, "\n")
+	default:
+		it.Result = "harness did not run: " + truncate(text, 600)
+	}
+	return it
+}
+
 func runExtras(e *Engine, prop, tier, verif string) *extraResult {
 	r := &extraResult{}
 	r.paper = paperArguments[prop]
+	for _, b := range boundedSpecs {
+		if b.prop == prop {
+			it := runBounded(e, b, tier)
+			r.items = append(r.items, it)
+			if !it.OK && it.Witness == "" {
+				r.problems = append(r.problems, it.Name+": "+it.Result)
+			}
+		}
+	}
+	for _, l := range lemmaSpecs {
+		if l.prop == prop {
+			r.items = append(r.items, runLemma(e, l, tier))
+		}
+	}
 	return r
+}
+
+// ---------- stand-alone lemmas over the solver's string theory ----------
+type lemmaSpec struct {
+	prop      string
+	name      string
+	statement string
+	smt       string // must be unsat for the lemma to hold
+}
+
+var lemmaSpecs []lemmaSpec
+
+func runLemma(e *Engine, l lemmaSpec, tier string) *extraItem {
+	it := &extraItem{Name: l.name, Statement: l.statement}
+	tmp, _ := os.MkdirTemp("", "gvc-lemma")
+	defer os.RemoveAll(tmp)
+	f := filepath.Join(tmp, "lemma.smt2")
+	os.WriteFile(f, []byte(l.smt+"\n(check-sat)\n(get-model)\n"), 0o644)
+	for _, s := range solvers[:2] {
+		r, text, ms := runSolver(s, f, 30)
+		it.Ms += ms
+		it.Backend = s.name
+		if r == "unsat" {
+			it.OK, it.Result = true, "unsat"
+			return it
+		}
+		if r == "sat" {
+			it.Result, it.Witness = "sat", truncate(text, 1500)
+			return it
+		}
+		it.Result = r
+	}
+	return it
 }
 
 var paperArguments = map[string]string{}
